@@ -188,9 +188,21 @@ QUICK3 = {(T8, 3, 3): ('base', 'abbrev', 'abbrev-swapped'), (U8, 3, 3): ('base',
           (UE14, 3, 2): ('base', 'abbrev-swapped'), (E12, 3, 3): ('base', 'swapped')}
 
 
+def weighted(tier):
+    """measurement-error model enabled (C18 weights through the real calc_weights + solve_simple)"""
+    out = []
+    for typ in (t for t in ALL if t != E12):         # E12 = UE14 internally; its conversion adds undecided branches under weights
+        for rows, cols in shapes(typ, 2):
+            fam = families(typ, rows, cols)
+            heavy = typ in (TE10, UE10, T16, U16) and max(rows, cols) == 2      # leakage / 16-term systems with weights: z3 identities of minutes each
+            for tag in (('base',) if heavy and tier == 'quick' else ('base', 'uneven', 'uneven2', 'redundant')):
+                if tag in fam: out.append(Config(typ, rows, cols, fam[tag], name=name_of(typ, rows, cols, 'weighted-' + tag), m_error=True))
+    return out
+
+
 def configs(tier):
     maxp = 2 if tier == 'quick' else 3
-    out = []
+    out = weighted(tier)
     if tier == 'quick':
         for (typ, rows, cols), tags in QUICK3.items():
             fam = families(typ, rows, cols)
